@@ -514,16 +514,33 @@ func (hi *hist) serve(before map[string]nodeState, nOps int, busy bool) {
 			// the cluster serves for a while: most collections change (more points than a shard takes:
 			// the collection record gains a shard id; a few points: only a shard file changes;
 			// deleted and created again under the same name: a new record with the old key)
+			// collections whose record also sits on a switched-off node are the ones whose copies can
+			// come to differ: they change more often, and are replaced more often
+			isUp := map[string]bool{}
+			for _, n := range hi.names(hi.up) {
+				isUp[n] = true
+			}
+			hot := map[string]bool{}
+			for n, st := range before {
+				if !isUp[n] {
+					for k := range st.recs {
+						hot[k] = true
+					}
+				}
+			}
 			for _, cd := range append([]*colData{}, hi.cols...) {
 				api := nodes[h.rng.Intn(len(nodes))]
 				r := h.rng.Intn(100)
+				if hot[cd.user+cluster.DBDELIMITER+cd.id] {
+					r = []int{0, 0, 50, 70, 70, 70, 95}[h.rng.Intn(7)] // grow 2/7, insert 1/7, replace 3/7, nothing 1/7
+				}
 				var err error
 				what := ""
 				switch {
-				case r < 60:
+				case r < 45:
 					what = "grow " + cd.user + "/" + cd.id
 					err = hi.insert(api, cd, 5+h.rng.Intn(4))
-				case r < 75:
+				case r < 60:
 					what = "insert " + cd.user + "/" + cd.id
 					err = hi.insert(api, cd, 1+h.rng.Intn(3))
 				case r < 90:
@@ -535,8 +552,9 @@ func (hi *hist) serve(before map[string]nodeState, nOps int, busy bool) {
 						}
 					}
 					if err == nil {
+						// the new record is usually SHORTER than the one it replaces (fewer shard ids)
 						hi.deleted = hi.deleted[:len(hi.deleted)-1]
-						err = hi.create(api, cd.user, cd.id, 1+h.rng.Intn(6))
+						err = hi.create(api, cd.user, cd.id, 1+h.rng.Intn(3))
 					}
 				default:
 					continue
@@ -721,7 +739,9 @@ func (h *harness) runHistory(sc int, kind string, first []int, nUsers, colsPerUs
 	hi.users = h.userIds(nUsers)
 	for _, user := range hi.users {
 		for c := 0; c < colsPerUser; c++ {
-			if err := hi.create(nodes[h.rng.Intn(len(nodes))], user, fmt.Sprintf("col%02d", c), 1+h.rng.Intn(ptsPerCol)); err != nil {
+			// more points than one shard takes: the record lists several shard ids, so that it can
+			// become shorter as well as longer later on
+			if err := hi.create(nodes[h.rng.Intn(len(nodes))], user, fmt.Sprintf("col%02d", c), 5+h.rng.Intn(ptsPerCol)); err != nil {
 				for _, n := range nodes {
 					n.Close()
 				}
